@@ -1,6 +1,6 @@
 (* C08 — non-vacuity examples for the hypotheses of Props.v, and refutation witnesses *)
 From Coq Require Import ZArith List Lia.
-From FV Require Import Lib.RustInt C08.Model C08.Proofs C08.Iter4 C08.Fits4 C08.Var14.
+From FV Require Import Lib.RustInt C08.Model C08.Proofs C08.Iter4 C08.Fits4 C08.Var14 C08.Reader.
 Import ListNotations.
 Open Scope Z_scope.
 
@@ -64,3 +64,17 @@ Example ex_var14 : cmap14_map_variant ex_sels 50 65024 = Some None /\ cmap14_map
   /\ cmap14_map_variant ex_sels 58 65024 = None /\ cmap14_map_variant ex_sels 66 65025 = None
   /\ cmap14_map_variant ex_sels 255 917761 = Some None.
 Proof. vm_compute. auto. Qed.
+
+(* a sorted reader-side table (not produced by the writer) meets sorted4 / u16_codes *)
+Definition ex_t4 : T4 := mkT4 6 [20; 40; 65535] [10; 30; 65535] [5; 0; 1] [0; 4; 0] [7; 0; 9].
+Example ex_sorted4 : sorted4 ex_t4 /\ u16_codes ex_t4.
+Proof. unfold sorted4, u16_codes, ex_t4, rows_of, u16, row_start, row_end. cbn. repeat split; try lia; repeat constructor; lia. Qed.
+Example ex_t4_answers : cmap4_map ex_t4 15 = Some 20 /\ cmap4_map ex_t4 30 = Some 7 /\ cmap4_map ex_t4 31 = None
+  /\ cmap4_map ex_t4 33 = None /\ cmap4_map ex_t4 25 = None.        (* delta; array; gid 0; outside the array; no segment *)
+Proof. vm_compute. auto. Qed.
+(* malformed: overlapping range-offset segments.  map_codepoint is sound (answers by the containing segment's own
+   start), while the iterator indexes the second segment from its CLAMPED start: it yields a different glyph for the
+   same code point.  (Observation on malformed input; built tables never overlap.) *)
+Definition ex_overlap : T4 := mkT4 4 [20; 25] [10; 15] [0; 0] [4; 24] [1; 2; 3; 4; 5; 6; 7; 8; 9; 10; 11; 12; 13; 14; 15; 16; 17; 18; 19; 20; 21; 22].
+Example ex_overlap_disagree : cmap4_map ex_overlap 21 = Some 18 /\ In (21, 12) (cmap4_iter ex_overlap).
+Proof. vm_compute. intuition. Qed.
